@@ -28,7 +28,7 @@ type c01 struct{}
 func (c01) ID() string    { return "C01" }
 func (c01) Level() string { return "exploration" }
 func (c01) Rule() string {
-	return "(a) every attribute path of the schema (read from /repo/schema/compose-spec.json at run time) (plus the keys the code singles out below user-keyed mappings, read from path patterns in the sources of /repo) x 21 YAML node kinds (incl. two lists repeating their keys, an integral float, integers beyond int64 / uint32, a negative integer) placed at that path, as a single file, as a second document, as an override of the valid witness, as the base under a valid override, in an extended base, in an included file, and against the full corpus document as override / overridden / extending / extended / including / included; every pair of kinds as (base, override) and as (base service, service extending it in the same file) at the same path; the single-file matrix through loader.LoadModelWithContext, cli LoadProject and cli LoadModel; the tags !reset / !override on 6 node shapes at every path and at the document root (single file, override of the full document, second document); (b) the single-file matrix under each of 10 load options flipped alone and all together (thorough: more option sets); (b') every pair of valid service attribute values of the three full corpus documents (whole, and cut down to each single child / grandchild of a mapping) on one service; (c) YAML alias/anchor cycles and merge keys, extends, include (every syntactic form of every edge incl. multi-path entries; 7 path spellings - relative, bare, through another directory, absolute, absolute with ., .. or // - of every edge of cycles of length 1..2; every load carries a listener that reports more than 5000 include/extends events as unbounded recursion) and depends_on cycles; (d) every {present, absent, directory-in-place} state vector of the files referenced by 5 scenarios, through the loader and through the cli entry point (override, extends chain, nested include with env files, env_file/label_file, cli .env); (e) every distance-1 byte edit (delete, insert/replace by 18 significant bytes) of 6 seed documents. Oracle: exactly one of project/error, no panic, no process death, no hang; cycles and missing required files are errors naming the file. distinct = distinct (position, kind, route, options) outcomes"
+	return "(a) every attribute path of the schema (read from /repo/schema/compose-spec.json at run time) (plus the keys the code singles out below user-keyed mappings, read from path patterns in the sources of /repo) x 21 YAML node kinds (incl. two lists repeating their keys, an integral float, integers beyond int64 / uint32, a negative integer) placed at that path, as a single file, as a second document, as an override of the valid witness, as the base under a valid override, in an extended base, in an included file, and against the full corpus document as override / overridden / extending / extended / including / included; every pair of kinds as (base, override) and as (base service, service extending it in the same file) at the same path; the single-file matrix through loader.LoadModelWithContext, cli LoadProject and cli LoadModel; every scalar leaf of 8 full corpus documents replaced by 10 node kinds; the tags !reset / !override on 6 node shapes at every path and at the document root (single file, override of the full document, second document); (b) the single-file matrix under each of 10 load options flipped alone and all together (thorough: more option sets); (b') every pair of valid service attribute values of the three full corpus documents (whole, and cut down to each single child / grandchild of a mapping) on one service; (c) YAML alias/anchor cycles and merge keys, extends, include (every syntactic form of every edge incl. multi-path entries; 7 path spellings - relative, bare, through another directory, absolute, absolute with ., .. or // - of every edge of cycles of length 1..2; every load carries a listener that reports more than 5000 include/extends events as unbounded recursion) and depends_on cycles; (d) every {present, absent, directory-in-place} state vector of the files referenced by 5 scenarios, through the loader and through the cli entry point (override, extends chain, nested include with env files, env_file/label_file, cli .env); (e) every distance-1 byte edit (delete, insert/replace by 18 significant bytes) of 6 seed documents. Oracle: exactly one of project/error, no panic, no process death, no hang; cycles and missing required files are errors naming the file. distinct = distinct (position, kind, route, options) outcomes"
 }
 func (c01) Assumptions() []string {
 	return []string{
@@ -438,6 +438,7 @@ func (c01) Run(c *core.Ctx) {
 		}
 	}
 	c01entryPoints(c, paths)
+	c01corpusLeaves(c)
 	c01tags(c, paths)
 	c01validPairs(c)
 	c01cycles(c)
@@ -445,6 +446,46 @@ func (c01) Run(c *core.Ctx) {
 	c01refcycles(c)
 	c01files(c)
 	c01bytes(c)
+}
+
+// c01corpusLeaves: every scalar leaf of the full corpus documents replaced by a node of another kind: the leaf keeps
+// the surroundings a real document gives it (sibling attributes that switch code paths on), which the minimal witness
+// documents of the kind matrix do not have.
+func c01corpusLeaves(c *core.Ctx) {
+	corpus := CorpusScns()
+	kinds := map[string]bool{"null": true, "true": true, "zero": true, "float-integral": true, "huge-int": true, "neg-int": true, "string": true,
+		"list-str": true, "empty-map": true, "map-str": true}
+	few := map[string]bool{"zero": true, "float-integral": true, "list-str": true, "map-str": true}
+	for _, dn := range []string{"rich", "rich2", "rich3", "odd-names", "kv-shapes", "restated", "legacy", "wide"} {
+		base := corpus[dn]
+		if base == nil || len(base.Main) != 1 {
+			continue
+		}
+		doc := yamlToMap(base.Files[base.Main[0]])
+		for li, lf := range c08leaves(doc) {
+			for _, k := range c01kinds {
+				if !kinds[k.name] || (dn == "wide" && c.Quick() && !few[k.name]) {
+					continue
+				}
+				if c.Expired() {
+					return
+				}
+				lf, k, li := lf, k, li
+				id := fmt.Sprintf("leaf/%s/%d:%s/%s", dn, li, strings.Join(lf.path, "."), k.name)
+				c.Do(id, func() core.Outcome {
+					lf.set(k.val)
+					text := mapToYAML(doc)
+					lf.set(lf.val)
+					files := map[string]string{}
+					for f, v := range base.Files {
+						files[f] = v
+					}
+					files[base.Main[0]] = text
+					return c01total(id, &Scn{Files: files, Main: base.Main, Env: base.Env}, "default")
+				})
+			}
+		}
+	}
 }
 
 // c01entryPoints: the single-file kind matrix through the other public ways of loading: the dictionary-returning
